@@ -91,4 +91,86 @@ CATALOGUE = [
          old="            if ret_val:\n                ret_val = json.loads(ret_val)\n",
          new="            if ret_val and ret_val != 'null':\n                ret_val = json.loads(ret_val)\n",
          note="a JSON null body returned as the string 'null'"),
+    # ------------------------------------------------------------------ C14
+    dict(id="m14_dash_with_parent", prop="C14", file="ak/color.py",
+         old="""            assert parent is None
+
+        # "-" - the system color is requested explicitely (even if the parent
+        # has some other color); "" - there is nothing to inherit the color from
+        if self.fg_color in ["-", ""]:
+            self.fg_color = None
+        if self.bg_color in ["-", ""]:
+            self.bg_color = None
+""",
+         new="""            assert parent is None
+            if self.fg_color in ["-", ""]:
+                self.fg_color = None
+            if self.bg_color in ["-", ""]:
+                self.bg_color = None
+""", note="the original defect (fixed in 549c950)"),
+    dict(id="m14_reentrant_sync", prop="C14", file="ak/color.py",
+         old="""            if colors_conf.color_conf_component_is_registered(cls):
+                # registration of a parent palette in the global config
+                # updates all the synced palettes. The synced palette of this
+                # class could have been among them - cls is registered already.
+                return
+""", new="", note="the original defect (fixed in c027611)"),
+    dict(id="m14_mods_parent_wins", prop="C14", suite_catches=True, file="ak/color.py",
+         old="            self.modifiers = {**parent.modifiers, **self.modifiers}\n",
+         new="            self.modifiers = {**self.modifiers, **parent.modifiers}\n",
+         note="modifiers merged parent over child"),
+    dict(id="m14_dash_inherits", prop="C14", file="ak/color.py",
+         old="""            if self.fg_color == "":
+                self.fg_color = parent.fg_color
+""",
+         new="""            if self.fg_color in ("", "-"):
+                self.fg_color = parent.fg_color
+""", note="'-' inherits the parent's colour instead of selecting the terminal default"),
+    dict(id="m14_poison_cant_resolve", prop="C14", file="ak/color.py",
+         old="                        cant_resolve.update(path)\n",
+         new="                        cant_resolve.update(self.syntax_map)\n",
+         note="one unresolvable chain poisons every other pending chain of this pass"),
+    dict(id="m14_user_overrides", prop="C14", file="ak/color.py",
+         old="""            if synt_id in self.syntax_map:
+                # properties of this syntax are defined already. Probably in
+                # config file.
+                continue
+""",
+         new="""            if synt_id in self.syntax_map and src_obj_descr != "user":
+                # properties of this syntax are defined already. Probably in
+                # config file.
+                continue
+""", note="a later user registration overrides the explicit configuration"),
+    dict(id="m14_cache_reset_user_only", prop="C14", suite_catches=True, file="ak/color.py",
+         old="        if any(synt_id not in self.syntax_map for synt_id in new_items):\n            self._cache = {}\n",
+         new="        if src_obj_descr == \"user\" and any(synt_id not in self.syntax_map for synt_id in new_items):\n            self._cache = {}\n",
+         note="component registrations no longer reset the palette cache: cached palettes go stale"),
+    dict(id="m14_no_resync", prop="C14", suite_catches=True, file="ak/color.py",
+         old="        if any_modifications and self is _GLOBAL_COLORS_CONF:\n",
+         new="        if any_modifications and to_resolve and self is _GLOBAL_COLORS_CONF:\n",
+         note="global palettes re-synced only when something was pending"),
+    dict(id="m14_nocolor_late", prop="C14", suite_catches=True, file="ak/color.py",
+         old="""                            syntax_color.resolve(
+                                parent_syntax_color, self.no_color)
+""",
+         new="""                            syntax_color.resolve(
+                                parent_syntax_color, False)
+""", note="items resolved through a parent are coloured in a no_color configuration"),
+    dict(id="m14_unknown_noeffects", prop="C14", suite_catches=True, file="ak/color.py",
+         old="""        if syntax_color is None:
+            syntax_color = self.syntax_map.get(self.DFLT_SYNTAX_ID)
+        if syntax_color is None or syntax_color.color_fmt is None:
+""",
+         new="""        if syntax_color is None or syntax_color.color_fmt is None:
+""", note="unknown ids get no-effects instead of the TEXT formatter"),
+    dict(id="m14_sync_skips_accessors", prop="C14", file="ak/color.py",
+         old="""        self.register_in_colors_conf(colors_conf)
+        for accessor_name, synt_id in self._LOCAL_SYNTAX.items():
+            setattr(self, accessor_name, colors_conf.get_color(synt_id))
+""",
+         new="""        if not colors_conf.color_conf_component_is_registered(type(self)):
+            self.register_in_colors_conf(colors_conf)
+            for accessor_name, synt_id in self._LOCAL_SYNTAX.items():
+                setattr(self, accessor_name, colors_conf.get_color(synt_id))
+""", note="a synced palette is refreshed only the first time it meets a configuration"),
 ]
